@@ -214,6 +214,19 @@ Usage: ggqlgen [options] [<schema-file>...]
 				}
 				exists[t.Name()] = true
 			}
+			// Directives have their own name space.
+			for _, t := range root.Directives() {
+				if t.Core() || exists["@"+t.Name()] {
+					continue
+				}
+				if e != nil {
+					e.types["@"+t.Name()] = true
+				}
+				if o != nil {
+					o.types["@"+t.Name()] = true
+				}
+				exists["@"+t.Name()] = true
+			}
 		}
 	}
 	for _, e := range embeds.embeds {
@@ -228,6 +241,12 @@ Usage: ggqlgen [options] [<schema-file>...]
 				continue
 			}
 			if e.types[t.Name()] {
+				buf = append(buf, '\n')
+				buf = append(buf, t.SDL(true)...)
+			}
+		}
+		for _, t := range root.Directives() {
+			if !t.Core() && e.types["@"+t.Name()] {
 				buf = append(buf, '\n')
 				buf = append(buf, t.SDL(true)...)
 			}
@@ -253,6 +272,12 @@ Usage: ggqlgen [options] [<schema-file>...]
 				continue
 			}
 			if o.types[t.Name()] {
+				buf = append(buf, '\n')
+				buf = append(buf, t.SDL(true)...)
+			}
+		}
+		for _, t := range root.Directives() {
+			if !t.Core() && o.types["@"+t.Name()] {
 				buf = append(buf, '\n')
 				buf = append(buf, t.SDL(true)...)
 			}
